@@ -15,7 +15,7 @@ different key sets), exactly when the closed form says so.  Core Lean only.
 * chains: `midSteps_mem_iff_chain` (a type is present after `n` layers iff there is a path of `n`
   filter types from an input type), `midSteps_mono`;
 * models: `model_outSig_partial_bank_resnet`, `model_outSig_partial_bank_dilresnet`,
-  `model_outSig_partial_bank_unet`, `model_partial_bank_order`, `model_absent_iff_unreachable`,
+  (`model_outSig_partial_bank_unet` is in `Properties/C20BanksUNet.lean`), `model_partial_bank_order`, `model_absent_iff_unreachable`,
   `resnet_present_iff_path`, `model_empty_mid_returns_empty`, `model_outSig_full_bank_corollary`.
 -/
 namespace GinjaxVerif.C20
